@@ -7,6 +7,6 @@ cd /verif/harness
 export GOFLAGS=-mod=mod GOPROXY=off
 flock /verif/.lean.lock go run ./cmd/extractfsm -repo "${1:-/repo}" -out /verif/lean/Bng/Gen
 # C06 layout tables (lean/Bng/Gen/Layout.lean, written atomically)
-flock /verif/.lean.lock go run ./cmd/extractlayout -repo "${1:-/repo}" -shim /verif/cshim-layout -lean /verif/lean/Bng/Gen/Layout.lean || echo "regen: extractlayout (C06) failed"
+flock /verif/.lean.lock go run ./cmd/extractlayout -repo "${1:-/repo}" -shim /verif/cshim-layout -scratch /var/tmp/extractlayout-regen -lean /verif/lean/Bng/Gen/Layout.lean || echo "regen: extractlayout (C06) failed"
 # C16 termination-path table (lean/Bng/Gen/Paths.lean, written atomically)
 flock /verif/.lean.lock go run ./cmd/extractpaths -repo "${1:-/repo}" -out /verif/lean/Bng/Gen/Paths.lean || echo "regen: extractpaths (C16) failed"
